@@ -507,6 +507,7 @@ var _ securitymode.SecurityMode
 		for _, f := range c.Fields {
 			id := "C04/" + n + "/" + f.Name + "/roundtrip"
 			id5 := "C05/" + n + "/" + f.Name + "/decoded-from-its-little-endian-slot"
+			id5s := "C05/" + n + "/" + f.Name + "/decoded-from-the-place-and-format-MS-CIFS-gives-it"
 			switch f.Kind {
 			case "int", "intarray":
 				fmt.Fprintf(&sb, "\t\tvCheck(d.%s == c.%s, %q)\n", f.Name, f.Name, id)
@@ -517,15 +518,18 @@ var _ securitymode.SecurityMode
 			case "bytes":
 				if lenTargetOf(c, f.Name) || f.FixLen >= 0 || f.Rest {
 					fmt.Fprintf(&sb, "\t\tvCheck(vBytesEq(d.%s, c.%s), %q)\n", f.Name, f.Name, id)
+					fmt.Fprintf(&sb, "\t\tvCheck(vBytesEq(d.%s, c.%s), %q)\n", f.Name, f.Name, id5s)
 				}
 			case "unicodez":
 				fmt.Fprintf(&sb, "\t\tvCheck(vBytesEq(d.%s, c.%s), %q)\n", f.Name, f.Name, id)
+				fmt.Fprintf(&sb, "\t\tvCheck(vBytesEq(d.%s, c.%s), %q)\n", f.Name, f.Name, id5s)
 			case "words":
 				fmt.Fprintf(&sb, "\t\tvCheck(len(d.%s) == len(c.%s), %q)\n\t\tif len(d.%s) == len(c.%s) {\n\t\t\tfor i := range c.%s {\n\t\t\t\tvCheck(d.%s[i] == c.%s[i], %q)\n\t\t\t}\n\t\t}\n", f.Name, f.Name, "C04/"+n+"/"+f.Name+"/count-roundtrip", f.Name, f.Name, f.Name, f.Name, f.Name, id)
 			case "dirlist":
 				fmt.Fprintf(&sb, "\t\tvCheck(len(d.%s) == len(c.%s), %q)\n\t\tif len(d.%s) == len(c.%s) {\n\t\t\tfor i := range c.%s {\n\t\t\t\ta, _ := d.%s[i].Marshal()\n\t\t\t\tb, _ := c.%s[i].Marshal()\n\t\t\t\tvCheck(vBytesEq(a, b), %q)\n\t\t\t}\n\t\t}\n", f.Name, f.Name, "C04/"+n+"/"+f.Name+"/count-roundtrip", f.Name, f.Name, f.Name, f.Name, f.Name, id)
 			case "structlist":
 				fmt.Fprintf(&sb, "\t\tvCheck(len(d.%s) == len(c.%s), %q)\n\t\tif len(d.%s) == len(c.%s) {\n\t\t\tfor i := range c.%s {\n\t\t\t\tvCheck(d.%s[i] == c.%s[i], %q)\n\t\t\t}\n\t\t}\n", f.Name, f.Name, "C04/"+n+"/"+f.Name+"/count-roundtrip", f.Name, f.Name, f.Name, f.Name, f.Name, id)
+				fmt.Fprintf(&sb, "\t\tif len(d.%s) == len(c.%s) {\n\t\t\tfor i := range c.%s {\n\t\t\t\tvCheck(d.%s[i] == c.%s[i], %q)\n\t\t\t}\n\t\t}\n", f.Name, f.Name, f.Name, f.Name, f.Name, id5s)
 			case "marshaler":
 				fmt.Fprintf(&sb, "\t\t{\n\t\t\ta, _ := d.%s.Marshal()\n\t\t\tb, _ := c.%s.Marshal()\n\t\t\tvCheck(vBytesEq(a, b), %q)\n\t\t}\n", f.Name, f.Name, id)
 			}
